@@ -38,6 +38,13 @@ _Domain = Union[Container[A], Callable[[A], bool]]
 Domain = Evaluatable[_Domain]
 
 
+def _key_exists(key: str, options: Options) -> bool:
+    try:
+        return dotted_key_exists(key, options)
+    except TypeError:  # a prefix of the key holds a scalar
+        return False
+
+
 class Option(Evaluatable[A]):
     """A class representing a single user-provided option.
 
@@ -157,7 +164,7 @@ class Option(Evaluatable[A]):
         """
         try:
             value = resolve(get_dotted_key(self.key, options), options)
-        except KeyError:
+        except (KeyError, TypeError):
             if self.default is MISSING:
                 raise KeyNotFoundError(self.key, self)
             value = self.default.evaluate(options)
@@ -174,7 +181,7 @@ class Option(Evaluatable[A]):
         default key is an Evaluatable, it is validated using the options
         dictionary. If the default key is not an Evaluatable, it is ignored.
         """
-        if dotted_key_exists(self.key, options):
+        if _key_exists(self.key, options):
             _ = self.evaluate(options)
         elif self.default is not MISSING:
             self.default.validate(options)
@@ -189,7 +196,7 @@ class Option(Evaluatable[A]):
         if the default value is an Evaluatable, the keys required by the
         Evaluatable are also returned.
         """
-        if dotted_key_exists(self.key, options):
+        if _key_exists(self.key, options):
             value = get_dotted_key(self.key, options)
             if isinstance(value, str):
                 return {self.key} | Template(value).keys(options)
@@ -203,7 +210,7 @@ class Option(Evaluatable[A]):
     def explain(self, options: Optional[Options] = None) -> Set[str]:
         """Returns the keys required by the option."""
         options = options or {}
-        if dotted_key_exists(self.key, options):
+        if _key_exists(self.key, options):
             value = get_dotted_key(self.key, options)
             if isinstance(value, str):
                 return {self.key} | Template(value).explain(options)
@@ -385,8 +392,8 @@ class WithOptions(Evaluatable[B]):
             key
             for key in self.evaluatable.keys(self._options(options))
             if not (
-                dotted_key_exists(key, self.options)
-                and (self.force or not dotted_key_exists(key, options))
+                _key_exists(key, self.options)
+                and (self.force or not _key_exists(key, options))
             )
         }
 
@@ -397,8 +404,8 @@ class WithOptions(Evaluatable[B]):
             key
             for key in self.evaluatable.explain(self._options(options))
             if not (
-                dotted_key_exists(key, self.options)
-                and (self.force or not dotted_key_exists(key, options))
+                _key_exists(key, self.options)
+                and (self.force or not _key_exists(key, options))
             )
         }
 
